@@ -479,3 +479,89 @@ def prodl(xs):
     for x in xs:
         r = r * x
     return r
+
+
+# =====================================================================================
+# ALU and HWPE-mult: accelerator fields vs generated values
+# =====================================================================================
+from pyvc.api import mk_memref_value, rt_shape  # noqa: E402
+from xdsl.dialects.builtin import MemRefType, StridedLayoutAttr  # noqa: E402
+
+from snaxc.accelerators.snax_alu import SNAXAluAccelerator  # noqa: E402
+from snaxc.accelerators.snax_hwpe_mult import SNAXHWPEMultAccelerator  # noqa: E402
+
+
+@contract
+class ALU_stream_setup_vals_match_fields:
+    target = "snaxc.accelerators.snax_alu.SNAXAluAccelerator._generate_stream_setup_vals"
+    shapes = [dict(nt=1), dict(nt=2)]
+    total = True
+    compare_ret = False
+    native = False
+    modular = {"snaxc.accelerators.snax.SNAXStreamer._generate_streamer_setup_vals": streamer_vals_contract}
+
+    def args(sh, sym):
+        nt = sh["nt"]
+        cfg = StreamerConfiguration([Streamer(StreamerType.Reader, ["n"] * nt, [4]), Streamer(StreamerType.Reader, ["n"] * nt, [4]), Streamer(StreamerType.Writer, ["n"] * nt, [4])])
+        acc = SNAXAluAccelerator(cfg)
+        raw = [[sym.int(f"ub{k}_{d}", 1) for d in range(nt)] for k in range(3)]
+        pats = [StridePattern(raw[k], [sym.int(f"ts{k}_{d}") for d in range(nt)], [8]) for k in range(3)]
+        return [acc, RegionView([mk_ident_value(4000 + k) for k in range(3)], pats), raw]
+
+    def run(sh, a):
+        return a[0]._generate_stream_setup_vals(a[1])
+
+    def ensures(sh, a, ret):
+        acc, op, raw = a
+        vals = list(ret)
+        fields = list(acc.fields)
+        check("exactly one value per declared field", len(vals) == len(fields))
+        nsf = len(acc.streamer_setup_fields)
+        check("the streamer values come first, in the streamer's order", all(vals[i][1] is GX["streamer_vals"][i][1] for i in range(min(nsf, len(vals)))))
+        if len(vals) == len(fields):
+            got = {fields[i]: vals[i][1] for i in range(len(fields))}
+            check("alu_mode == 0", den(got["alu_mode"]) == 0)
+            check("loop_bound_alu == number of temporal steps of the streams", den(got["loop_bound_alu"]) == prodl(raw[0]))
+
+    def canary(sh, a, ret):
+        check("canary: loop bound is 1", den(list(ret)[len(list(ret)) - 1][1]) == 1)
+
+
+@contract
+class HWPE_setup_vals_match_fields:
+    target = "snaxc.accelerators.snax_hwpe_mult.SNAXHWPEMultAccelerator._generate_setup_vals"
+    shapes = [dict(bits=b) for b in (8, 32)]
+    total = True
+    compare_ret = False
+    native = False
+
+    def args(sh, sym):
+        refs = []
+        for k in range(3):
+            ty = MemRefType(IntegerType(sh["bits"]), [sym.int(f"N{k}", 1)], StridedLayoutAttr([1], None))
+            refs.append(mk_memref_value(ty, [ty.get_shape()[0]], [1], sym.int(f"off{k}", 0), sym.int(f"ptr{k}", 0)))
+
+        class V:
+            pass
+        op = RegionView(refs, [])
+        return [SNAXHWPEMultAccelerator(), op, refs]
+
+    def run(sh, a):
+        return a[0]._generate_setup_vals(a[1])
+
+    def ensures(sh, a, ret):
+        acc, op, refs = a
+        vals = list(ret)
+        fields = list(acc.fields)
+        el = sh["bits"] // 8
+        check("exactly one value per declared field", len(vals) == len(fields))
+        if len(vals) == len(fields):
+            got = {fields[i]: vals[i][1] for i in range(len(fields))}
+            for name, k in (("A", 0), ("B", 1), ("O", 2)):
+                check(f"{name} == aligned pointer + offset in bytes of operand {k}", den(got[name]) == refs[k].rt_ptr + refs[k].rt_offset * el)
+            check("vector_length == length of the first operand", den(got["vector_length"]) == rt_shape(refs[0], 0))
+            check("nr_iters == 1", den(got["nr_iters"]) == 1)
+            check("mode == 1", den(got["mode"]) == 1)
+
+    def canary(sh, a, ret):
+        check("canary: all pointers are 0", den(list(ret)[0][1]) == 0)
